@@ -153,7 +153,7 @@ def h_file(length: int, chunk_size: int, use_seek: bool, seek_offset: int, whenc
 ALPHA = ["A", "\x00", "é", "€", "́", "\U0001F600", "\n", "'"]
 
 
-def run_text(cps, charset_none, i, j):
+def run_text(cps, charset_none, i, j, trunc=False):
     text = "".join(ALPHA[c] for c in cps)
     if charset_none:
         try:
@@ -166,14 +166,24 @@ def run_text(cps, charset_none, i, j):
         whole = text.encode("utf8")
         ct = ContentType("text", "plain", {"charset": "utf8"})
         enc = "utf8"
+    if trunc:
+        whole = whole[:-1]       # possibly ends inside a multi-byte sequence: decoding the whole string fails
     if not (0 <= i <= j <= len(whole)):
         return None
     chunks = [whole[:i], whole[i:j], whole[j:]]
     problems = []
-    got = C.Content(ct, lambda: chunks).as_text()
-    if got != whole.decode(enc):
-        problems.append("as_text() %r != whole-string decode %r for chunks %r" % (got, whole.decode(enc), chunks))
-    if not charset_none:
+    try:
+        want = ("ok", whole.decode(enc))
+    except UnicodeDecodeError:
+        want = ("UnicodeDecodeError", None)
+    try:
+        got = ("ok", C.Content(ct, lambda: chunks).as_text())
+    except UnicodeDecodeError:
+        got = ("UnicodeDecodeError", None)
+    if got != want:
+        problems.append("as_text() %r != whole-string decode %r for chunks %r" % (got, want, chunks))
+    got = got[1]
+    if not charset_none and not trunc:
         tc = C.text_content(text)
         if tc.as_text() != text or b"".join(tc.iter_bytes()) != text.encode("utf8"):
             problems.append("text_content does not round-trip %r" % (text,))
@@ -185,7 +195,7 @@ def run_text(cps, charset_none, i, j):
     return {"text": text, "chunks": chunks, "got": got, "problems": problems}
 
 
-def h_text(n: int, c0: int, c1: int, c2: int, c3: int, charset_none: bool, i: int, j: int) -> bool:
+def h_text(n: int, c0: int, c1: int, c2: int, c3: int, charset_none: bool, i: int, j: int, trunc: bool) -> bool:
     """
     pre: 0 <= n <= 4 and 0 <= i <= j <= 16
     pre: 0 <= c0 < 8 and 0 <= c1 < 8 and 0 <= c2 < 8 and 0 <= c3 < 8
@@ -195,20 +205,25 @@ def h_text(n: int, c0: int, c1: int, c2: int, c3: int, charset_none: bool, i: in
     raw = [c0, c1, c2, c3]
     cps = [ch.sel("c%d" % k, raw[k], len(ALPHA)) for k in range(nn)]
     cn = ch.cbool(charset_none)
+    tr = ch.cbool(trunc)
     text = "".join(ALPHA[c] for c in cps)
     try:
         blen = len(text.encode("ISO-8859-1" if cn else "utf8"))
     except UnicodeEncodeError:
         return True
+    if tr:
+        if blen == 0 or cn:
+            return True
+        blen -= 1
     try:
         ii = ch.conc(i, blen + 1)
         jj = ch.conc(j, blen + 1)
     except ch.Prune:
         return True
-    o = run_text(cps, cn, ii, jj)
+    o = run_text(cps, cn, ii, jj, tr)
     if o is None:
         return True
-    v = dict(cps=tuple(cps), charset_none=cn, i=ii, j=jj)
+    v = dict(cps=tuple(cps), charset_none=cn, i=ii, j=jj, trunc=tr)
     return ch.finish(not o["problems"], v, nontrivial=blen > nn or (nn >= 2 and 0 < ii < blen))
 
 
@@ -354,12 +369,13 @@ HARNESSES = [
     Harness("text", h_text, _text_shards,
             bounds={"quick": "texts of 0..3 code points over {A, NUL, e-acute, euro, combining acute, astral emoji, "
                              "newline, quote}; UTF-8 with declared charset or ISO-8859-1 with none; every pair of cut "
-                             "positions 0 <= i <= j <= len(bytes) (cuts inside multi-byte sequences, empty chunks)",
+                             "positions 0 <= i <= j <= len(bytes) (cuts inside multi-byte sequences, empty chunks); also with the last byte removed (a byte string "
+                             "ending inside a multi-byte sequence must fail exactly as whole-string decoding does)",
                     "thorough": "0..4 code points"},
             rule="non-trivial = some multi-byte character or an interior cut", twin_fix={"n": 2},
-            fidelity=lambda seed: [(2, 2, 3, 0, 0, False, i, j) for i in range(6) for j in range(i, 6)],
-            observe=lambda n, c0, c1, c2, c3, cn, i, j: (lambda o: None if o is None else o["got"])(run_text([c0, c1, c2, c3][:n], cn, i, j)),
-            describe=lambda n, c0, c1, c2, c3, cn, i, j: run_text([c0, c1, c2, c3][:n], cn, i, j)),
+            fidelity=lambda seed: [(2, 2, 3, 0, 0, False, i, j, t) for i in range(5) for j in range(i, 5) for t in (False, True)],
+            observe=lambda n, c0, c1, c2, c3, cn, i, j, t: (lambda o: None if o is None else o["got"])(run_text([c0, c1, c2, c3][:n], cn, i, j, t)),
+            describe=lambda n, c0, c1, c2, c3, cn, i, j, t: run_text([c0, c1, c2, c3][:n], cn, i, j, t)),
     Harness("eq", h_eq, lambda tier: [({}, 600)],
             bounds={"quick": "two contents with symbolic bytes of length <= 3 each, arbitrary cut positions, same or different type"},
             rule="non-trivial = some byte present; distinct by (same_type, equal, lengths)", sym=("a", "b")),
